@@ -457,5 +457,9 @@ def corpus(tier):
         add('gen2', GEN + CLOSURES, '.py')
         add('cls2', CDEFCLS + FUSED.replace('cimport cython', '', 1))
         add('mix', 'import cython\n' + PYCLASS + EXC + PUREPY.replace('import cython', '', 1), '.py')
+    # positions with equal (line, column) in two source files inside one scope, with tracing code emitted
+    files['inc_part.pxi'] = 'def from_inc(x):\n    return x + 1\nINC = 5\n'
+    add('inctrace', '# cython: linetrace=True\ninclude "inc_part.pxi"\ndef top(x):\n    return from_inc(x) + INC\nTOP = 6\n')
+    add('incprofile', '# cython: profile=True\ninclude "inc_part.pxi"\nVAL = 7\ndef top2(x):\n    return from_inc(x) + VAL\n')
     files.update(PKG)
     return files, mods
